@@ -424,11 +424,12 @@ class Wrapf(util.WrapperMixin):
             append_format(output, "!  enum {namespace_scope}{enum_name}", fmt_enum)
         for member in ast.members:
             fmt_id = fmtmembers[member.name]
-            append_format(
-                output,
-                "integer(C_INT), parameter :: {F_enum_member} = {F_value}",
-                fmt_id,
-            )
+            # Allow the line to be continued after the operators of
+            # the value, long enumerator names exceed the line length.
+            output.append(
+                wformat("integer(C_INT), parameter ::\t {F_enum_member} =\t ",
+                        fmt_id)
+                + re.sub(r"([-+*/])", "\\1\t", str(fmt_id.F_value)))
         self.set_f_module(fileinfo.module_use, "iso_c_binding", "C_INT")
 
     def write_object_get_set(self, node, fileinfo):
